@@ -126,6 +126,7 @@ func init() {
 		return r
 	}
 	extSchemas["strings.TrimLeft"] = schemaTrimLeft
+	extSchemas["strings.TrimRight"] = schemaTrimRight
 	extSchemas["strings.Compare"] = schemaStringsCompare
 	extSchemas["strings.IndexByte"] = schemaIndexByte(false)
 	extSchemas["strings.LastIndexByte"] = schemaIndexByte(true)
@@ -212,10 +213,12 @@ func schemaErrorf(x *Exec, st *State, fn *ssa.Function, args []Val, c *ssa.CallC
 			if !ok {
 				continue
 			}
-			for k, t := range inner.Is {
+			for _, k := range sortedTermKeys(inner.Is) {
+				t := inner.Is[k]
 				ev.Is[k] = o.Or(orFalse(o, ev.Is[k]), o.And(o.Not(inner.Nil), t))
 			}
-			for k, t := range inner.As {
+			for _, k := range sortedTermKeys(inner.As) {
+				t := inner.As[k]
 				ev.As[k] = o.Or(orFalse(o, ev.As[k]), o.And(o.Not(inner.Nil), t))
 			}
 			if og, ok := inner.Data["origin"]; ok {
@@ -722,6 +725,48 @@ func schemaTrimLeft(x *Exec, st *State, fn *ssa.Function, args []Val, c *ssa.Cal
 	}
 	k := x.leadRun(s, set)
 	return StrVal{Arr: s.Arr, Off: o.IdxAdd(s.Off, k), Len: o.IdxSub(s.Len, k)}
+}
+
+// strings.TrimRight(s, cutset) with a constant ASCII cutset: s without its trailing run of cutset bytes.
+func schemaTrimRight(x *Exec, st *State, fn *ssa.Function, args []Val, c *ssa.CallCommon) Val {
+	o := x.o
+	s := args[0].(StrVal)
+	cut, ok := args[1].(StrVal)
+	if !ok || len(cut.Alts) != 1 {
+		x.fail("strings.TrimRight: cutset must be a constant")
+	}
+	var set [128]bool
+	for _, ch := range []byte(cut.Alts[0].S) {
+		if ch >= 128 {
+			x.fail("strings.TrimRight: non-ASCII cutset")
+		}
+		set[ch] = true
+	}
+	k := x.trailRun(s, set)
+	return StrVal{Arr: s.Arr, Off: s.Off, Len: o.IdxSub(s.Len, k)}
+}
+
+// trailRun: the number of trailing bytes of view that belong to set (the mirror image of leadRun).
+func (x *Exec) trailRun(view StrVal, set [128]bool) *Term {
+	o := x.o
+	name := "trailrun"
+	for b := 0; b < 128; b++ {
+		if set[b] {
+			name += fmt.Sprintf(".%d", b)
+		}
+	}
+	k := o.UF(name, o.IdxSort(), view.Arr, view.Off, view.Len)
+	if x.leadDone == nil {
+		x.leadDone = map[*Term]bool{}
+	}
+	if !x.leadDone[k] {
+		x.leadDone[k] = true
+		i := o.BoundVar("i", o.IdxSort())
+		x.assumeClosed(o.And(o.IdxLe(o.Idx(0), k), o.IdxLe(k, view.Len)))
+		x.assumeClosed(o.Forall([]*Term{i}, o.Implies(o.And(o.IdxLe(o.IdxSub(view.Len, k), i), o.IdxLt(i, view.Len)), x.classTerm(set, o.Select(view.Arr, o.IdxAdd(view.Off, i))))))
+		x.assumeClosed(o.Implies(o.IdxLt(k, view.Len), o.Not(x.classTerm(set, o.SelByte(view.Arr, o.IdxAdd(view.Off, o.IdxSub(o.IdxSub(view.Len, k), o.Idx(1))))))))
+	}
+	return k
 }
 
 // strings.Compare(a, b): -1, 0 or +1; 0 iff equal contents; antisymmetric. (The lexicographic order itself is
